@@ -162,10 +162,17 @@ impl Check for C15 {
                     },
                 ));
                 // class byte exhaustive x instr of the ack, and vice versa, at the ack point
-                fams.push(Family::new("ack_point_class_and_instr_sweeps", 256 * 2 * 2, true, |i, rng| {
+                fams.push(Family::new("ack_point_class_and_instr_sweeps", (256 * 2 + 256) * 2, true, |i, rng| {
                     let kind = (i % 2) as u8;
                     let j = i / 2;
-                    let cf = if j < 256 { (j as u8, 0x00) } else { (0x80, (j - 256) as u8) };
+                    let cf = if j < 256 {
+                        (j as u8, 0x00)
+                    } else if j < 512 {
+                        (0x80, (j - 256) as u8)
+                    } else {
+                        // (c, ff) for every class: carries into the next class byte
+                        ((j - 512) as u8, 0xff)
+                    };
                     plan_for(SeqId::ReadCard, cf, kind, true, rng)
                 }));
             }
